@@ -111,16 +111,16 @@ Definition clause1 (p : pmap) (dflt cm : cmap) : bool :=
 (* clause 2: nothing else is in it *)
 Definition nested_default (x : bytes) (dflt : cmap) : bool :=
   match lookup dtc dflt with Some (VMap dsub) => isSome (lookup x dsub) | _ => false end.
-Definition c2_entry (p : pmap) (dflt : cmap) (kc : bytes * cval) : bool :=
+Definition c2_entry (p : pmap) (dflt cm : cmap) (kc : bytes * cval) : bool :=
   let k := fst kc in
   (isSome (lookup k dflt) || isSome (lookup (lp ++ k) p) || (bytes_eqb k dtc && has_topic p))
-  && match snd kc with
-     | VS _ => true
-     | VMap sub =>
+  && match lookup k cm with       (* the observed map has distinct keys: this is [snd kc] *)
+     | Some (VMap sub) =>
          bytes_eqb k dtc
          && forallb (fun xv => isSome (lookup (lp ++ tp ++ fst xv) p) || nested_default (fst xv) dflt) sub
+     | _ => true
      end.
-Definition clause2 (p : pmap) (dflt cm : cmap) : bool := forallb (c2_entry p dflt) cm.
+Definition clause2 (p : pmap) (dflt cm : cmap) : bool := forallb (c2_entry p dflt cm) cm.
 
 (* clause 3 *)
 Definition expected_accept (p : pmap) : bool :=
@@ -158,7 +158,7 @@ Definition float_roundtrip (req : bool) (p : pmap) (name : bytes) (d : fv) (dtxt
   req || isSome (lookup name p) || opt_eqb (opt_eqb fv_eqb) (lookup dtxt parse) (Some (Some d)).
 
 (* failing clauses: (clause number, detail).  1 overlay verbatim+override, 2 no leak, 3 checkConfig iff,
-   4 int getter, 5 string getter, 6 float getter.  Detail of clauses 1/2: the client. *)
+   4 int getter, 5 string getter, 6 float getter.  Detail -1: the call failed or panicked. *)
 Definition spec_c20 (i : input) (o : obs) : list (Z * list Z) :=
   match i with
   | IBuild w p =>
@@ -168,9 +168,9 @@ Definition spec_c20 (i : input) (o : obs) : list (Z * list Z) :=
           if conflict p then []
           else match o with
                | OBuild (BOk cm) =>
-                   (if clause1 p dflt cm then [] else [(1, [w])])
-                   ++ (if clause2 p dflt cm then [] else [(2, [w])])
-               | _ => [(1, [w; -1])]
+                   (if clause1 p dflt cm then [] else [(1, [])])
+                   ++ (if clause2 p dflt cm then [] else [(2, [])])
+               | _ => [(1, [-1])]
                end
       end
   | ICheck p =>
